@@ -193,7 +193,8 @@ class _AbstractOrderedSet(AbstractSet[T], Sequence[T]):  # noqa: PLW1641
             if len(self) > len(other):  # type: ignore[arg-type]
                 return False
         except TypeError:
-            pass
+            # Not sized, e.g., an iterator: membership tests would consume it
+            other = list(other)
         return all(item in other for item in self)
 
     def issuperset(self, other: Iterable[T]) -> bool:
@@ -231,8 +232,10 @@ class _AbstractOrderedSet(AbstractSet[T], Sequence[T]):  # noqa: PLW1641
             The symmetric difference.
         """
         cls = self.__class__
-        diff1 = cls(self).difference(other)
-        diff2 = cls(other).difference(self)
+        # Traverse `other` only once; it might be a one-shot iterator
+        other_items = cls(other)
+        diff1 = cls(self).difference(other_items)
+        diff2 = other_items.difference(self)
         return diff1.union(diff2)
 
 
@@ -298,8 +301,10 @@ class OrderedSet(_AbstractOrderedSet[T], MutableSet[T]):
         Args:
             other: The other set.
         """
-        items_to_add = [item for item in other if item not in self]
-        items_to_remove = cast("set[T]", set(other))
+        # Traverse `other` only once; it might be a one-shot iterator
+        other_items = dict.fromkeys(other)
+        items_to_add = [item for item in other_items if item not in self]
+        items_to_remove = cast("set[T]", set(other_items))
         self._items = {item: None for item in self._items if item not in items_to_remove}
         for item in items_to_add:
             self._items[item] = None
